@@ -256,7 +256,8 @@ SURROUND = ["", "<p>x</p>\n", "</script>", "<script>", PLACEHOLDER, "é<b>&amp;<
 def fn_document(case):
     """case = (texts[len n+1], dep indices[len n], indent)"""
     from htmltools import HTMLTextDocument
-    texts, idxs, indent = case
+    texts, idxs, indent = case[:3]
+    explicit = case[3] if len(case) > 3 else None      # dependencies handed to the constructor as well
     viols = []
     sers = []
     mixed = indent == "mixed"
@@ -273,8 +274,21 @@ def fn_document(case):
         if t not in seen:          # once per distinct serialisation (text), first appearance
             seen.add(t)
             order.append(DOC_DEPS[i])
+    given = []
+    if explicit == "same-name-older":
+        # same NAME as the first embedded dependency, another version and definition
+        given = [dict(DOC_DEPS[idxs[0]], version="0.0.1", script=[{"src": "given.js"}])] if idxs else []
+    elif explicit == "unrelated":
+        given = [{"name": "given", "version": "9", "source": None, "script": [{"src": "g.js"}], "stylesheet": [], "meta": [],
+                  "all_files": False, "head": None}]
+    elif explicit == "identical":
+        given = [DOC_DEPS[idxs[0]]] if idxs else []
+    order = given + order
     try:
-        doc = HTMLTextDocument(html, deps_replace_pattern=PLACEHOLDER)
+        if given:
+            doc = HTMLTextDocument(html, deps=[build_dep(g) for g in given], deps_replace_pattern=PLACEHOLDER)
+        else:
+            doc = HTMLTextDocument(html, deps_replace_pattern=PLACEHOLDER)
         r = doc.render()
     except Exception as e:
         return (True, "EXC", [("doc:raises", f"HTMLTextDocument raised {type(e).__name__}: {e}",
@@ -282,8 +296,8 @@ def fn_document(case):
     got = copy.deepcopy([dep_fields(d) for d in r["dependencies"]])
     exp = [expected_fields(i) for i in order]
     if got != exp:
-        viols.append(("doc:deps", "recovered dependency list is not one per distinct "
-                      "serialisation in order of first appearance",
+        viols.append(("doc:deps" + (":with-explicit-deps" if given else ""), "recovered dependency list is not (the dependencies "
+                      "given to the constructor, then) one per distinct serialisation in order of first appearance",
                       {"observed": [g["name"] + g["version"] for g in got],
                        "expected": [g["name"] + g["version"] for g in exp]}))
         return (True, None, viols)
@@ -322,6 +336,8 @@ JSON_TREES = [
                             ["D", "d1", "1.1", {"stylesheet": {"href": "x y.css"}, "source": {"href": "http://h/"}}]]],
     ["L", [["T", "x"], ["D", "d3", "3", {}], ["E", "p", True, [], [["T", "y"]]]]],
     ["L", [["E", "p", True, [], []]]],
+    # a JSX component on its own: str() of it in JSON mode carries react, react-dom and its own dependencies
+    ["J", "Foo", [["p", ["E", "b", False, [], [["D", "jprop", "1.0", {}]]]]], [["T", "c"], ["D", "jchild", "2.0", {"script": {"src": "j.js"}}]], "ctor"],
     # a dependency whose head holds tags AND another dependency (reported, but not part of the head markup)
     ["E", "div", True, [], [["T", "n"], ["D", "outer", "1.0", {"head_spec": [["E", "title", True, [], [["T", "t"]]],
                                                                            ["D", "inner", "2.0", {"script": {"src": "i.js"}}]]}]]],
@@ -339,7 +355,7 @@ def fn_jsonmode(case):
     i, pre = case
     viols = []
     x = build(JSON_TREES[i])
-    direct = x.render()
+    direct = x.render() if hasattr(x, "render") else x.tagify().render()      # (a JSX component has no render())
     assert htmltools.html_dependency_render_mode == "invisible"
     htmltools.html_dependency_render_mode = "json"
     try:
@@ -511,6 +527,13 @@ def plan(tier):
     out.append(dict(kind="space", name="documents", space=Alt(*docs), fn=fn_document, execs=2,
                     note=f"documents of 1..{nmax} serialised copies of {len(DOC_DEPS)} dependencies "
                          f"(repeats allowed) interleaved with {len(SURROUND)} surrounding texts"))
+    exd = []
+    for n in (1, 2):
+        exd.append(Prod(Seq(Const(SURROUND[:2] + [PLACEHOLDER]), n + 1, n + 1), Seq(Const(list(range(len(DOC_DEPS)))), n, n),
+                        Const([None, 2]), Const(["same-name-older", "unrelated", "identical"])))
+    out.append(dict(kind="space", name="documents-with-explicit-deps", space=Alt(*exd), fn=fn_document, execs=2,
+                    note="the constructor is ALSO given dependencies (same name as an embedded one but older; unrelated; identical): "
+                         "every embedded serialisation is still recovered, after the given ones"))
     out.append(dict(kind="space", name="version-spellings", space=Prod(Const(VERSIONS), Const(INDENTS)), fn=fn_version,
                     note="version strings whose normalised form differs from the typed one"))
     out.append(dict(kind="space", name="json-mode", space=Prod(Const(list(range(len(JSON_TREES)))), Const(JSON_PRE)),
